@@ -171,6 +171,10 @@ def _named_states(case):
     positive = None
     if named == "trine":
         kets, positive = [np.asarray(v).reshape(-1) for v in trine()], True
+        # the set the property names: three unit vectors of a qubit with pairwise overlaps of modulus 1/2 (a different
+        # triple may happen to be antidistinguishable as well - mutant m7 is, by a margin of 2e-4 - but is not the trine)
+        gram = np.abs(np.array([[np.vdot(a, b) for b in kets] for a in kets]))
+        req(len(kets) == 3 and np.allclose(gram, 0.5 + 0.5 * np.eye(3), atol=1e-12), f"trine() is not the trine: |Gram| = {np.round(gram, 6).tolist()}", "trine-structure")
     elif named == "bb84":
         b = bb84()
         kets, positive = [np.asarray(v).reshape(-1) for v in (b[0][0], b[0][1], b[1][0], b[1][1])], True
